@@ -151,6 +151,11 @@ impl managed::Manager for TManager {
     fn detach(&self, obj: &mut TObj) {
         let _ = self.sh.callbacks.fetch_add(1, Ordering::Relaxed);
         self.sh.objs.lock().unwrap()[obj.id as usize].detach += 1;
+        // user code, called without the pool's lock: a schedule point like any other (the object still
+        // exists here; whatever the pool has already released can be used by another thread now)
+        if !InRetain::active() {
+            pseudo_point("cb:detach");
+        }
     }
 }
 
@@ -346,6 +351,7 @@ fn retain(pool: &TPool, sh: &Arc<Sh>, keep: bool) -> Vec<TObj> {
     let sh2 = sh.clone();
     let asked = std::sync::Arc::new(AtomicUsize::new(0));
     let asked2 = asked.clone();
+    let _in_retain = InRetain::enter();
     let r = pool.retain(move |o, _| {
         let _ = asked2.fetch_add(1, Ordering::SeqCst);
         if sh2.chaos.load(Ordering::Relaxed) {
@@ -502,6 +508,7 @@ fn run_sweep_inner(prop: &'static str, sc: &Scenario, ctl: &Arc<Ctl>, record_onl
                 AOp::RetainGate { keep } => {
                     let sh2 = sh.clone();
                     let mut first = true;
+                    let _in_retain = InRetain::enter();
                     let r = pool.retain(move |o, _| {
                         if first {
                             first = false;
@@ -921,7 +928,7 @@ pub fn end_state_checks(sh: &Arc<Sh>, pool: &TPool, log: &mut Vec<String>, candi
         for (id, i) in o.iter().enumerate() {
             let gone = i.destructed || i.external;
             if gone && i.detach != 1 {
-                sh.viol(&["C09"], "detach_count", format!("obj{} left the pool but detach was called {} times", id, i.detach));
+                sh.viol(if closed { &["C09", "C06"] } else { &["C09"] }, "detach_count", format!("obj{} left the pool but detach was called {} times", id, i.detach));
             }
             if !gone && i.detach != 0 {
                 sh.viol(&["C09"], "detach_of_kept_object", format!("obj{} is still in the pool but was detached {} times", id, i.detach));
